@@ -837,8 +837,10 @@ class ExcludeRegionState(object):  # pylint: disable=too-many-instance-attribute
             # physically is, which is the position it had before entering the excluded region
             return (axis.current - lastAxis.current) / axis.unitMultiplier
 
-        newZ = self.position.Z_AXIS.nativeToLogical()
-        oldZ = self.lastPosition.Z_AXIS.nativeToLogical()
+        # Compare the physical (native) heights: the logical values may be expressed in different
+        # units or relative to different offsets if those were changed while excluding
+        newZ = self.position.Z_AXIS.current
+        oldZ = self.lastPosition.Z_AXIS.current
         moveZcmd = "G0 F{f} Z{z}".format(
             f=self.feedRate / self.feedRateUnitMultiplier,
             z=targetCoordinate(self.position.Z_AXIS, self.lastPosition.Z_AXIS)
